@@ -63,6 +63,8 @@ def run(tier, seed):
     for pc, res in zip(pcases, pres):
         r0 = res["results"][0]
         if r0.get("outcome") != "ok":
+            if r0.get("outcome") != "err":
+                v.violation("base source: entry point did not return Ok/Err: %s %s" % (r0.get("outcome"), str(r0.get("msg"))[:200]), {"files": pc["files"]})
             continue
         bs = boundaries(r0)
         if not quick or len(bs) <= 40:
